@@ -21,9 +21,11 @@ Definition file_pkg (pkg : bytes) (file : N) : bytes :=
 
 Definition qualify (pkg p n : bytes) : bytes := (match p with [] => pkg | _ => p end) ++ [46] ++ n.
 
-(* 2: field — [proto name; json name; type name; j5 kind; tenant; foreign package; foreign entity]
+(* 2: field — [proto name; json name; type name; j5 kind; tenant; foreign package; foreign entity; key format]
                [number; proto type; repeated; required; flatten; in oneof; primary; has tenant; filterable;
                 has foreign key; proto3 optional]
+   14: the leading comment of the element above (its description: " " ++ text ++ newline, inner
+       newlines followed by a space: commentSet.comment in j5convert/source_location.go)
    3: default filters of the field above (only when filterable)
    [parent] is the full name of the containing message (a map field refers to its own entry) *)
 Definition type_cols (pkg parent : bytes) (f : ofield) (t : otype) : N * bytes * bytes :=
@@ -38,20 +40,29 @@ Definition type_cols (pkg parent : bytes) (f : ofield) (t : otype) : N * bytes *
                     if k =? 0 then bs "object" else if k =? 1 then bs "oneof" else bs "enum")
   end.
 
+Definition comment_text (d : bytes) : bytes :=
+  [32] ++ flat_map (fun c => if c =? 10 then [10; 32] else [c]) d ++ [10].
+Definition comment_lines (d : bytes) : list line :=
+  match d with [] => [] | _ => [(14, [comment_text d], [])] end.
+Definition keyfmt_name (k : N) : bytes :=
+  match k with 1 => bs "FORMAT_ID62" | 2 => bs "FORMAT_UUID" | _ => [] end.
+
 Definition field_lines (pkg parent : bytes) (in_oneof : bool) (i : N) (f : ofield) : list line :=
   let '(pt, tn, kind) := type_cols pkg parent f (f_type f) in
   let is_map := match f_type f with TMap _ => true | _ => false end in
   (2, [to_snake (f_json f); f_json f; tn; (if f_repeated f && negb is_map then bs "array" else kind);
        match f_tenant f with Some t => t | None => [] end;
        match f_foreign f with Some p => fst p | None => [] end;
-       match f_foreign f with Some p => snd p | None => [] end],
+       match f_foreign f with Some p => snd p | None => [] end;
+       (if is_map then [] else keyfmt_name (f_keyfmt f))],
       [i; pt; b2n (f_repeated f); b2n (f_required f); b2n (f_flatten f);
        b2n in_oneof;
        b2n (f_primary f); b2n (match f_tenant f with Some _ => true | None => false end);
        b2n (match f_filter f with Some _ => true | None => false end);
        b2n (match f_foreign f with Some _ => true | None => false end);
        b2n (f_optional f)])
-  :: match f_filter f with Some l => [(3, l, [])] | None => [] end.
+  :: comment_lines (f_desc f)
+  ++ match f_filter f with Some l => [(3, l, [])] | None => [] end.
 
 Fixpoint fields_lines (pkg parent : bytes) (in_oneof : bool) (i : N) (l : list ofield) : list line :=
   match l with
@@ -68,8 +79,8 @@ Definition entry_lines (pkg parent : bytes) (file : N) (fs : list ofield) : list
     | TMap v, _ =>
         let '(pt, tn, kind) := type_cols pkg parent f v in
         [ (1, [parent ++ [46] ++ map_name (to_snake (f_json f)); []], [file; 0; 0]);
-          (2, [bs "key"; []; []; []; []; []; []], [1; 9; 0; 0; 0; 0; 0; 0; 0; 0; 0]);
-          (2, [bs "value"; []; tn; kind; []; []; []], [2; pt; 0; 0; 0; 0; 0; 0; 0; 0; 0]) ]
+          (2, [bs "key"; []; []; []; []; []; []; []], [1; 9; 0; 0; 0; 0; 0; 0; 0; 0; 0]);
+          (2, [bs "value"; []; tn; kind; []; []; []; keyfmt_name (f_keyfmt f)], [2; pt; 0; 0; 0; 0; 0; 0; 0; 0; 0]) ]
     | TNested n k, Some il =>
         if k =? 2 then []
         else (1, [parent ++ [46] ++ n; []], [file; 0; b2n (k =? 1)])
